@@ -8,6 +8,7 @@ import (
 	"os"
 	"os/exec"
 	"strings"
+	"time"
 )
 
 // Workers are sub-process entry points: vcheck worker <name> args...
@@ -35,7 +36,21 @@ func RunWorker(name string, args []string, stdin io.Reader, env ...string) Worke
 	var errb tailBuf
 	cmd.Stdout = &out
 	cmd.Stderr = &errb
-	err = cmd.Run()
+	// watchdog (not an oracle): a worker that is still running after 15 minutes is killed; its callers see a worker
+	// that died without its final line
+	err = cmd.Start()
+	if err == nil {
+		done := make(chan struct{})
+		go func() {
+			select {
+			case <-done:
+			case <-time.After(15 * time.Minute):
+				cmd.Process.Kill()
+			}
+		}()
+		err = cmd.Wait()
+		close(done)
+	}
 	res := WorkerResult{Err: err}
 	if cmd.ProcessState != nil {
 		res.ExitCode = cmd.ProcessState.ExitCode()
